@@ -54,7 +54,8 @@ NOT covered by this tier
     engine A's part (DESIGN C16 bullet A), h5py and pickle themselves are assumed dependencies.
   * pathlib.Path targets (the loaders do not accept them; the statement says "path or open handle" = str / file object).
   * refusal on an existing file given as an open HANDLE with overwrite=False (the statement only promises it for paths),
-    pickle without overwrite on an existing path (statement is silent; plain 'wb' truncation).
+    pickle without overwrite on an existing path is NOT required to refuse (statement is silent), but reading back must
+    then give the object just written (checked in C16/overwrite).
   * `Result.fitter` (not part of the saved dict and not named in the statement); files written by older versions.
   * container types of loaded descriptor values (list vs ndarray vs numpy scalar): the statement asks for element-wise
     equal values, so `[1, 2]` loaded as `array([1, 2])` and `4` loaded as `array(4)` count as equal.
@@ -1096,6 +1097,20 @@ def orc_overwrite(case):
                 r = _unchanged(snapB, B, 'refused save')
                 if r:
                     return r
+            if fmt == 'pkl' and target == 'path':
+                # (1') a plain save onto an existing pickle path: either it is refused (raises) or reading back yields the
+                # object that was written -- the round trip is promised for every write, it must never return the OLD object
+                p2 = os.path.join(td, 'again' + EXT[fmt])
+                A.save(p2, file_type=fmt)
+                try:
+                    B.save(p2, file_type=fmt)
+                    refused = False
+                except Exception:                                   # noqa: BLE001
+                    refused = True
+                r = _cmp_any(kind, A if refused else B, load(p2),
+                             f'{kind} pkl/path plain save onto an existing file ({"refused" if refused else "accepted"})')
+                if r:
+                    return r + ' (reading back after writing must give the object written)'
             # (2) overwrite requested
             if target == 'path':
                 B.save(p, file_type=fmt, overwrite=True)
